@@ -90,7 +90,27 @@ fn short(s: &str) -> String {
     if s.len() > 300 { format!("{}...({} chars)", &s[..300], s.len()) } else { s.to_string() }
 }
 
+thread_local! { static MARKER: std::cell::RefCell<Option<std::fs::File>> = std::cell::RefCell::new(None); }
+
+fn mark_current(out: &Out, line: &str) {
+    use std::io::{Seek, SeekFrom, Write};
+    MARKER.with(|m| {
+        let mut m = m.borrow_mut();
+        if m.is_none() {
+            *m = std::fs::File::create(out.dir.join("current_case.txt")).ok();
+        }
+        if let Some(f) = m.as_mut() {
+            let _ = f.seek(SeekFrom::Start(0));
+            let _ = f.write_all(line.as_bytes());
+            let _ = f.write_all(b"\n#END#                                                                \n");
+        }
+    });
+}
+
 fn hostile_case(out: &mut Out, stream: &[u8], chunks: &[Vec<u8>], kind: &str) {
+    // if the process dies here (abort on allocation failure, stack overflow) the check finds the
+    // input in this marker file
+    mark_current(out, &chunks_to_line(chunks));
     let (line, res) = run_impl(chunks);
     out.count(kind);
     match &res {
